@@ -321,3 +321,138 @@ Proof.
   - apply N.eqb_eq. rewrite <- T. apply N.eqb_eq. exact H.
   - apply N.eqb_eq. rewrite T. apply N.eqb_eq. exact H.
 Qed.
+
+(* ---------- split ---------- *)
+Lemma mod256_land x : x mod 256 = N.land x 255.
+Proof. change 256 with (2 ^ 8). change 255 with (N.ones 8). symmetry. apply N.land_ones. Qed.
+
+Lemma land_lxor_distr a b c : N.land (N.lxor a b) c = N.lxor (N.land a c) (N.land b c).
+Proof.
+  apply N.bits_inj. intros k. rewrite !N.land_spec, !N.lxor_spec, !N.land_spec.
+  destruct (N.testbit a k), (N.testbit b k), (N.testbit c k); reflexivity.
+Qed.
+
+Lemma lxor_mod256 a b : (N.lxor a b) mod 256 = N.lxor (a mod 256) (b mod 256).
+Proof. rewrite !mod256_land. apply land_lxor_distr. Qed.
+
+Lemma mod256_small x : x < 256 -> x mod 256 = x.
+Proof. intros H. apply N.mod_small, H. Qed.
+
+Lemma decrypt_encrypt o K K' d : okb d -> K' < 256 -> K mod 256 = K' -> forall y,
+  decrypt_from y (inv o) K (encrypt_from y o K' d) = d.
+Proof.
+  intros Hd HK' HK. induction Hd as [|b d Hb _ IH]; intros y; [reflexivity|].
+  cbn [encrypt_from decrypt_from]. rewrite lxor_mod256, HK.
+  assert (Hk : N.lxor K' (y mod 256) < 256).
+  { rewrite <- (mod256_small K' HK'), <- lxor_mod256. apply N.mod_lt. discriminate. }
+  rewrite ap_inv by assumption. f_equal. apply IH.
+Qed.
+
+Lemma find_case_in cs k c : NoDup (map fst cs) -> In (k, c) cs -> find_case cs k = Some c.
+Proof.
+  induction cs as [|[k' c'] r IH]; intros Hnd Hin; [contradiction|]. cbn [find_case].
+  inversion Hnd as [|? ? Hnotin Hnd']; subst. destruct Hin as [H|H].
+  - injection H as -> ->. rewrite N.eqb_refl. reflexivity.
+  - destruct (N.eqb_spec k' k) as [->|Hne]; [|apply IH; assumption].
+    exfalso. apply Hnotin. apply in_map_iff. exists (k, c). split; [reflexivity | exact H].
+Qed.
+
+(* the int accumulator of the emitted loop and the byte accumulator of the generator agree mod 256 *)
+Lemma split_key_agree idx : forall c K K', K mod 256 = K' ->
+  (fold_left (fun k p => N.lxor k (snd p * N.of_nat (fst p))) (combine (seq c (length idx)) idx) K) mod 256
+  = split_key_from c idx K'.
+Proof.
+  induction idx as [|ix r IH]; intros c K K' H; [exact H|].
+  cbn [length seq combine fold_left split_key_from fst snd]. apply IH. rewrite lxor_mod256, H. reflexivity.
+Qed.
+
+Lemma combine_app {A B} (l1 l1' : list A) (l2 l2' : list B) :
+  length l1 = length l2 -> combine (l1 ++ l1') (l2 ++ l2') = combine l1 l2 ++ combine l1' l2'.
+Proof.
+  revert l2; induction l1 as [|x l1 IH]; intros [|y l2] H; cbn in *; try discriminate; [reflexivity|].
+  f_equal. apply IH. lia.
+Qed.
+
+Lemma split_key_from_lt idx : forall c K, K < 256 -> split_key_from c idx K < 256.
+Proof.
+  induction idx as [|ix r IH]; intros c K HK; [exact HK|]. cbn [split_key_from]. apply IH.
+  rewrite <- (mod256_small K HK), <- lxor_mod256. apply N.mod_lt. discriminate.
+Qed.
+
+Section Split.
+  Variable n : nat.                      (* number of chunks *)
+  Variable idx : list N.                 (* the permutation: n + 2 state numbers *)
+  Variable ps : list piece.              (* the emitted chunk expressions, in original order *)
+  Variable o : bop.
+  Variable key0 : N.
+  Variable cs : list (N * scase).        (* the switch cases, in any (shuffled) order *)
+  Variable data : bytes.
+  Hypothesis Hidx : length idx = S (S n).
+  Hypothesis Hnd : NoDup idx.
+  Hypothesis Hps : length ps = n.
+  Hypothesis Hkey0 : key0 < 256.
+  Hypothesis Hdata : okb data.
+  Hypothesis Hcs_len : length cs = S n.
+  Hypothesis Hcs_nd : NoDup (map fst cs).
+  Hypothesis Hchunk : forall k, (k < n)%nat -> In (nth k idx 0, CChunk (nth (S k) idx 0) (nth k ps (PAtom (0, None)))) cs.
+  Hypothesis Hdec : In (nth n idx 0, CDecrypt (nth (S n) idx 0) (inv o)) cs.
+  (* the chunks hold the data encrypted with the generator's final key *)
+  Hypothesis Henc : concat (map run_piece ps) = encrypt_from 0 o (split_key_from 0 (firstn (S n) idx) key0) data.
+
+  Let exit := nth (S n) idx 0.
+  Let acc (c : nat) (K : N) : N :=
+    fold_left (fun k p => N.lxor k (snd p * N.of_nat (fst p))) (combine (seq 0 c) (firstn c idx)) K.
+
+  Lemma idx_ne_exit k : (k <= n)%nat -> nth k idx 0 <> exit.
+  Proof.
+    intros Hk Heq. unfold exit in Heq.
+    assert (Hk' : (k < length idx)%nat) by lia. assert (Hn' : (S n < length idx)%nat) by lia.
+    pose proof (proj1 (NoDup_nth idx 0) Hnd k (S n) Hk' Hn' Heq). lia.
+  Qed.
+
+  Lemma acc_step c K : (c < length idx)%nat -> acc (S c) K = N.lxor (acc c K) (nth c idx 0 * N.of_nat c).
+  Proof.
+    intros Hc. unfold acc.
+    assert (Hf : firstn (S c) idx = firstn c idx ++ [nth c idx 0]).
+    { clear -Hc. revert c Hc. induction idx as [|x l IH]; intros [|c] Hc; cbn in *; try lia; [reflexivity|]. f_equal. apply IH. lia. }
+    rewrite Hf, seq_S. cbn [Nat.add].
+    rewrite combine_app by (rewrite seq_length, firstn_length; lia). rewrite fold_left_app. reflexivity.
+  Qed.
+
+  (* the loop, started at the c-th state with the first c chunks appended *)
+  Lemma split_loop_from : forall m c fuel, (c + m = n)%nat -> (m + 2 <= fuel)%nat ->
+    run_split_loop fuel cs exit (nth c idx 0) (N.of_nat c) (acc c key0) (concat (map run_piece (firstn c ps)))
+    = Some data.
+  Proof.
+    induction m as [|m IH]; intros c fuel Hc Hf.
+    - (* c = n: the decrypt case, then exit *)
+      assert (c = n) by lia. subst c. destruct fuel as [|[|fuel]]; try lia.
+      cbn [run_split_loop]. destruct (N.eqb_spec (nth n idx 0) exit) as [E|_]; [exfalso; apply (idx_ne_exit n); [lia | exact E]|].
+      rewrite (find_case_in cs _ _ Hcs_nd Hdec). fold exit. rewrite N.eqb_refl.
+      rewrite firstn_all2 by lia. rewrite Henc. f_equal.
+      apply decrypt_encrypt; [exact Hdata | | ].
+      + apply split_key_from_lt, Hkey0.
+      + rewrite <- (acc_step n key0) by lia. unfold acc.
+        rewrite <- (firstn_length_le idx (n := S n)) at 1 by lia.
+        apply split_key_agree. apply mod256_small, Hkey0.
+    - (* a chunk case *)
+      destruct fuel as [|fuel]; [lia|]. cbn [run_split_loop].
+      destruct (N.eqb_spec (nth c idx 0) exit) as [E|_]; [exfalso; apply (idx_ne_exit c); [lia | exact E]|].
+      rewrite (find_case_in cs _ _ Hcs_nd (Hchunk c ltac:(lia))).
+      replace (N.of_nat c + 1)%N with (N.of_nat (S c)) by lia.
+      rewrite <- (acc_step c key0) by lia.
+      assert (Hfn : concat (map run_piece (firstn c ps)) ++ run_piece (nth c ps (PAtom (0, None))) = concat (map run_piece (firstn (S c) ps))).
+      { assert (Hf2 : firstn (S c) ps = firstn c ps ++ [nth c ps (PAtom (0, None))]).
+        { assert (Hlt : (c < length ps)%nat) by lia. clear -Hlt. revert c Hlt. induction ps as [|x l IHl]; intros [|c] Hlt; cbn in *; try lia; [reflexivity|]. f_equal. apply IHl. lia. }
+        rewrite Hf2, map_app, concat_app. cbn. rewrite app_nil_r. reflexivity. }
+      rewrite Hfn. apply IH; lia.
+  Qed.
+
+  Theorem split_roundtrip : run_split (nth 0 idx 0) exit (key0, None) cs = Some data.
+  Proof.
+    unfold run_split. cbn [run_atom]. rewrite Hcs_len.
+    change (Some data) with (Some data).
+    pose proof (split_loop_from n 0 (S (S (S n))) ltac:(lia) ltac:(lia)) as H.
+    cbn [N.of_nat firstn map concat] in H. unfold acc in H. cbn [seq firstn combine fold_left] in H. exact H.
+  Qed.
+End Split.
